@@ -265,7 +265,28 @@ pub fn describe_last_wire() -> String {
                     out.push_str(&format!("(+{} bytes partial)", bytes.len() - used));
                 }
             }
-            Err(e) => out.push_str(&format!("unparsable: {e}")),
+            Err(e) => {
+                out.push_str(&format!("unparsable: {e}; frame walk: "));
+                // lenient walk by the size fields: channel and descriptor code of each frame
+                let mut pos = 0usize;
+                while pos + 8 <= bytes.len() {
+                    if &bytes[pos..pos + 4] == b"AMQP" {
+                        out.push_str("HDR ");
+                        pos += 8;
+                        continue;
+                    }
+                    let size = u32::from_be_bytes([bytes[pos], bytes[pos + 1], bytes[pos + 2], bytes[pos + 3]]) as usize;
+                    if size < 8 || pos + size > bytes.len() {
+                        out.push_str(&format!("(stops at {pos}, size {size})"));
+                        break;
+                    }
+                    let ch = u16::from_be_bytes([bytes[pos + 6], bytes[pos + 7]]);
+                    let body = &bytes[pos + (bytes[pos + 4] as usize * 4).min(size)..pos + size];
+                    let code = if body.len() >= 3 && body[0] == 0 { format!("{:02x}", body[2]) } else { "--".into() };
+                    out.push_str(&format!("#{code}@{ch}({size}) "));
+                    pos += size;
+                }
+            }
         }
     }
     out
